@@ -154,6 +154,57 @@ func hasFact(ins ssa.Instruction, pred func(Cmp) bool) bool {
 	return false
 }
 
+// hasFactIP: like hasFact, but also looks through "helper(…) returned a nil error" edges: a fact that holds at every
+// success return of the helper holds after the helper was seen to succeed.
+func (p *Prog) hasFactIP(ins ssa.Instruction, pred func(Cmp) bool, depth int) bool {
+	if hasFact(ins, pred) {
+		return true
+	}
+	if depth > 2 {
+		return false
+	}
+	for _, ce := range dominatingConds(ins) {
+		cm := canonCond(ce.If.Cond, ce.Truth)
+		if cm.Y == nil || cm.Op != "==" {
+			continue
+		}
+		x, y := cm.X, cm.Y
+		if isNilConst(x) {
+			x, y = y, x
+		}
+		if !isNilConst(y) || !isErrorType(x.Type()) {
+			continue
+		}
+		var call *ssa.Call
+		switch v := x.(type) {
+		case *ssa.Call:
+			call = v
+		case *ssa.Extract:
+			call, _ = v.Tuple.(*ssa.Call)
+		}
+		if call == nil {
+			continue
+		}
+		g := call.Call.StaticCallee()
+		if g == nil || !p.InModule(g) {
+			continue
+		}
+		all, n := true, 0
+		eachInstr(g, func(i ssa.Instruction) {
+			if ret, ok := i.(*ssa.Return); ok && isSuccessReturn(ret) {
+				n++
+				if !p.hasFactIP(ret, pred, depth+1) {
+					all = false
+				}
+			}
+		})
+		if all && n > 0 {
+			return true
+		}
+	}
+	return false
+}
+
 // boolFact: the value v (or its negation) is known at ins
 func boolFactIs(ins ssa.Instruction, match func(ssa.Value) bool, want bool) bool {
 	return hasFact(ins, func(c Cmp) bool {
@@ -1321,6 +1372,13 @@ func runTraceMisuse(c *Ctx, r *RuleRun) {
 	neg := func(g func(Cmp) bool) func(Cmp) bool {
 		return func(cm Cmp) bool { return g(Cmp{negateOp(cm.Op), cm.X, cm.Y}) }
 	}
+	// the checks may live in a helper whose error modify passes on
+	cands := []*ssa.Function{f}
+	for _, g := range p.DirectCallees(f) {
+		if p.InModule(g) && g.Pkg == f.Pkg && errResultIndex(g.Signature) >= 0 && p.recvIs(g, "Txn") {
+			cands = append(cands, g)
+		}
+	}
 	// effects of modify: the map updates
 	var ups []ssa.Instruction
 	eachInstr(f, func(ins ssa.Instruction) {
@@ -1331,7 +1389,7 @@ func runTraceMisuse(c *Ctx, r *RuleRun) {
 	for _, g := range guards {
 		ok := len(ups) > 0
 		for _, u := range ups {
-			if !hasFact(u, neg(g.failed)) {
+			if !p.hasFactIP(u, neg(g.failed), 0) {
 				ok = false
 			}
 		}
@@ -1345,56 +1403,58 @@ func runTraceMisuse(c *Ctx, r *RuleRun) {
 			return ok && ev != nil && globalLoaded(retOperand(ret, 0)) == ev
 		}
 		found, wrongSide := false, false
-		for _, b := range f.Blocks {
-			if len(b.Instrs) == 0 {
-				continue
-			}
-			iff, ok := b.Instrs[len(b.Instrs)-1].(*ssa.If)
-			if !ok {
-				continue
-			}
-			for si, sb := range b.Succs {
-				if len(sb.Instrs) == 0 {
+		for _, f := range cands {
+			for _, b := range f.Blocks {
+				if len(b.Instrs) == 0 {
 					continue
 				}
-				cm := canonCond(iff.Cond, si == 0)
-				reach := func() bool {
-					if isErrRet(sb.Instrs[0]) {
-						return true
-					}
-					q := PathQuery{P: p, Fn: f, Starts: []ssa.Instruction{iff}, EdgeOK: func(bb *ssa.BasicBlock, i int) bool { return bb != b || i == si }, Target: isErrRet,
-						Avoid: func(i ssa.Instruction) bool { return i == ssa.Instruction(iff) }}
-					return q.FindPath() != nil
+				iff, ok := b.Instrs[len(b.Instrs)-1].(*ssa.If)
+				if !ok {
+					continue
 				}
-				if g.failed(cm) || g.failed(cm.Flip()) {
-					// directly after the failing edge: the error return, without passing another guard's failing return first
-					if len(sb.Instrs) > 0 {
-						direct := false
-						for cur := sb; cur != nil; {
-							retFound := false
-							for _, i2 := range cur.Instrs {
-								if isErrRet(i2) {
-									retFound = true
+				for si, sb := range b.Succs {
+					if len(sb.Instrs) == 0 {
+						continue
+					}
+					cm := canonCond(iff.Cond, si == 0)
+					reach := func() bool {
+						if isErrRet(sb.Instrs[0]) {
+							return true
+						}
+						q := PathQuery{P: p, Fn: f, Starts: []ssa.Instruction{iff}, EdgeOK: func(bb *ssa.BasicBlock, i int) bool { return bb != b || i == si }, Target: isErrRet,
+							Avoid: func(i ssa.Instruction) bool { return i == ssa.Instruction(iff) }}
+						return q.FindPath() != nil
+					}
+					if g.failed(cm) || g.failed(cm.Flip()) {
+						// directly after the failing edge: the error return, without passing another guard's failing return first
+						if len(sb.Instrs) > 0 {
+							direct := false
+							for cur := sb; cur != nil; {
+								retFound := false
+								for _, i2 := range cur.Instrs {
+									if isErrRet(i2) {
+										retFound = true
+									}
+								}
+								if retFound {
+									direct = true
+									break
+								}
+								if len(cur.Succs) == 1 {
+									cur = cur.Succs[0]
+								} else {
+									cur = nil
 								}
 							}
-							if retFound {
-								direct = true
-								break
+							if direct {
+								found = true
 							}
-							if len(cur.Succs) == 1 {
-								cur = cur.Succs[0]
-							} else {
-								cur = nil
-							}
-						}
-						if direct {
-							found = true
 						}
 					}
-				}
-				if neg(g.failed)(cm) || neg(g.failed)(cm.Flip()) {
-					if reach() {
-						wrongSide = true
+					if neg(g.failed)(cm) || neg(g.failed)(cm.Flip()) {
+						if reach() {
+							wrongSide = true
+						}
 					}
 				}
 			}
